@@ -6,7 +6,7 @@ Require Import WD.Proofs.C11KernelProofs WD.Proofs.C11ReaderProofs.
 
 Definition with_mask (C : cfg) (M : N) : cfg :=
   {| c_recursive := c_recursive C; c_mask := M; c_root := c_root C; c_fix_ignored := c_fix_ignored C;
-     c_fix_movein := c_fix_movein C; c_fix_simulate := c_fix_simulate C; c_fix_moveout := c_fix_moveout C;
+     c_fix_movein := c_fix_movein C; c_fix_simulate := c_fix_simulate C; c_fix_relabel := c_fix_relabel C; c_fix_moveout := c_fix_moveout C;
      c_faults := c_faults C |}.
 
 Section RT.
@@ -28,6 +28,10 @@ Section RT.
     | Crash s, Crash s' => s = s'
     | _, _ => False
     end.
+
+  (* the stale key deleted by the repair of F10e is read off the reader's tables: the same on both sides *)
+  Lemma unlabel_twin r wd p : unlabel C' r wd p = unlabel C r wd p.
+  Proof. reflexivity. Qed.
 
   Lemma add_watch_twin r k k' t p : kw0 k k' ->
     match add_watch C r k t p, add_watch C' r k' t p with
